@@ -9,12 +9,12 @@ CONSTANTS
   Starts = {0, 4}
   Ends = {0, 17}
   Batches = {1, 2, 3, 4, 5, 6, 7, 8, 9, 10, 11, 12, 13, 14, 15, 16}
-  Caps = {1, 3, 7}
-  Aligns = {4, 5}
+  Caps = {3, 7}
+  Aligns = {5}
   NMs = {1, 2, 3, 4, 5, 6}
   Bufs = {0, 1, 3, 16}
   NFs = {1, 2, 4}
-INIT Init
+INIT MCInit
 NEXT Next
 INVARIANTS LawsHold ExportCover
 CHECK_DEADLOCK FALSE
